@@ -192,11 +192,11 @@ def run_tlc(pid, name, module, cfg_text, workers=4, env=None, timeout=900, simul
 
 def apalache_inductive(rep, pid, module, safety="Safety", timeout=600):
     """Unbounded argument: discharge with Apalache (a) Init => IndInv, (b) IndInv /\\ Next => IndInv',
-    (c) IndInv => Safety for the integer projection spec/unbounded/<module>.tla (arbitrary chunk size,
+    (c) IndInv => Safety for the integer projection spec/<module>.tla (arbitrary chunk size,
     arbitrary number of chunks).  A timeout is 'inconclusive' (recorded, never a violation); a
     counterexample means the projection or its invariant is wrong (a model bug: ToolError)."""
     wd = workdir(pid, "apalache-" + module, clean=True)
-    src = os.path.join(SPEC, "unbounded", module + ".tla")
+    src = os.path.join(SPEC, module + ".tla")
     steps = [("init", ["--init=Init", "--inv=IndInv", "--length=0"]),
              ("consecution", ["--init=IndInit", "--inv=IndInv", "--length=1"]),
              ("implies_safety", ["--init=IndInit", "--inv=" + safety, "--length=0"])]
